@@ -173,7 +173,9 @@ class ProxyIO:
         self._controll(RIO_CLOSE_WRITE)
 
     def close_read(self) -> None:
-        raise NotImplementedError()
+        # nothing to close on this side: reading ends when the forwarder
+        # closes the io channel
+        pass
 
     def kill(self) -> None:
         self._controll(RIO_KILL)
